@@ -114,11 +114,13 @@ def gen_scenario(rng, idx, n_ops=None, with_save=False, opts=True, cross_prob=0.
             ops.append({"op": "state"})
         elif r < 0.27 and with_save:
             ops.append({"op": "save"})
-        elif r < 0.31 and with_save:
+        elif r < 0.36 and with_save:
             # the user renames an instance (covergroup.set_name), possibly after reports were already produced, possibly to
             # a name another instance carries
             i = rng.randrange(len(insts))
-            ops.append({"op": "rename", "inst": i, "name": rng.choice(["front", "rear", "u_%d" % rng.randrange(3), insts[i][0]])})
+            ops.append({"op": "rename", "inst": i, "name": rng.choice(["front", "rear", "u_%d" % rng.randrange(3), insts[i][0],
+                                                                               # names that collide with the suffixes the save adds to repeated names
+                                                                               "x", "x", "x_1", "x_1_1", insts[i][0] + "_1"])})
         else:
             i = rng.randrange(len(insts))
             tn, sh = insts[i]
